@@ -1453,7 +1453,8 @@ def lib_value(it, dotted):
 def _fresh_arr(it, n, kind, base):
     sort = {"real": z3.RealSort(), "int": z3.IntSort(), "bool": z3.BoolSort()}[kind]
     A = z3.Array(it.path.fresh_name(base), z3.IntSort(), sort)
-    return Arr.new(Vec(n, lambda i: z3.Select(A, i if not isinstance(i, int) else z3.IntVal(i)), kind, arr=A))
+    path = it.path
+    return Arr.new(Vec(n, lambda i: z3.Select(A, path.auto_index(i, n)), kind, arr=A))
 
 
 def np_concatenate(it, parts, axis=0):
